@@ -7,19 +7,4 @@ INIT Init
 NEXT Next
 CONSTRAINT Bound
 VIEW ViewAll
-INVARIANT TypeOK
-INVARIANT InventoryNoDuplicates
-INVARIANT InventoryExact
-INVARIANT PoolKeepsTrackedDischarges
-INVARIANT OnePerLocation
-INVARIANT ByLocTruthful
-INVARIANT AsmLookupFindsLive
-INVARIANT BlkLookupFindsLive
-INVARIANT LookupsNeverReturnPurged
-INVARIANT NamesAreCurrent
-INVARIANT ContentsUnchanged
-INVARIANT BlocksPartition
-INVARIANT BlockOrderKept
-INVARIANT NoFlagsNoExchange
-INVARIANT LookupsAgree
 CHECK_DEADLOCK FALSE
